@@ -2860,6 +2860,10 @@ int cg_geo_write(int fn, int B, int Fam, const char * geo_name,
      /* verify input */
     if (cgi_check_strlen(geo_name)) return CG_ERROR;
     if (cgi_check_strlen(CAD_name)) return CG_ERROR;
+    if (strlen(geo_file) == 0) {
+        cgi_error("filename undefined for GeometryReference node!");
+        return CG_ERROR;
+    }
 
     cg = cgi_get_file(fn);
     if (cg == 0) return CG_ERROR;
@@ -3017,6 +3021,10 @@ int cg_node_geo_write( const char *geo_name,
      /* verify input */
     if (cgi_check_strlen(geo_name)) return CG_ERROR;
     if (cgi_check_strlen(CAD_name)) return CG_ERROR;
+    if (strlen(geo_file) == 0) {
+        cgi_error("filename undefined for GeometryReference node!");
+        return CG_ERROR;
+    }
 
     CHECK_FILE_OPEN
 
